@@ -1345,3 +1345,122 @@ example : getForm toyForm (setForm toyForm { ct := some (S "text/plain; charset=
   ⟨h.1, h.2.1⟩
 
 end MitmVerif.Props.C34
+
+/-! ### the write-back clause ("writing a view's current value back leaves the message's meaning unchanged"), view by view:
+    full statement as a `def`, and either a theorem or a `_counterexample` (owner round 6)
+
+    * request cookies  : `view_writeback_idempotent` (above) — holds for ALL header values
+    * query            : `QueryWritebackKeepsTarget` is false (`*`, F-C34g): `query_writeback_counterexample`; `query_writeback_partial`
+    * urlencoded form  : `FormStyleLossless` is false (F-C34e): `form_writeback_counterexample`; the partial result is `form_view_roundtrip`
+    * response cookies : `SetCookieWritebackIdempotent` is false (F-C34f): `set_cookie_writeback_counterexample`;
+                         `set_cookie_writeback_partial`
+    * path components  : `PathComponentsWritebackKeepsPath` is false (F-C34d): `path_components_writeback_counterexample`
+    * multipart        : F-C34a (`MultipartRoundtrips`, `multipart_roundtrip_counterexample`); under the guards the decoded view equals the
+                         assigned parts (`multipart_roundtrip`), so writing it back is the same assignment -/
+
+namespace MitmVerif.Props.C34
+open MitmVerif MitmVerif.C34
+
+/-! #### query -/
+
+/-- full statement: writing the query view back never turns a target into the asterisk form or out of it -/
+def QueryWritebackKeepsTarget : Prop :=
+  ∀ (U : UrlCodec), (∀ ps, U.parseQsl (U.urlencode ps) = ps) → ∀ (scheme p : Str),
+    (setQueryOf U scheme p (getQueryOf U scheme p) = [42] ↔ p = [42])
+
+/-- F-C34g: `request.query = request.query` on `OPTIONS *` leaves the empty target -/
+theorem query_writeback_counterexample : ¬ QueryWritebackKeepsTarget := by
+  intro h
+  have := (h toyCodec toy_law (S "http") [42]).mpr rfl
+  revert this
+  decide +kernel
+
+/-- **C34 (query write-back, partial).** For any request target whose path part is not the bare `*` and has no `;` (see
+    `query_view_roundtrip_target`): writing the view's current value back leaves the view, the path, the `;params` and the fragment
+    as they were. -/
+theorem query_writeback_partial (U : UrlCodec) (hlaw : ∀ ps, U.parseQsl (U.urlencode ps) = ps) (hno : ∀ ps, 35 ∉ U.urlencode ps)
+    (scheme p : Str) (hpath : 59 ∉ (targetParts scheme p).path)
+    (hstar : unparseTarget (setQuery U (targetParts scheme p) (getQueryOf U scheme p)) ≠ [42]) :
+    getQueryOf U scheme (setQueryOf U scheme p (getQueryOf U scheme p)) = getQueryOf U scheme p ∧
+    targetParts scheme (setQueryOf U scheme p (getQueryOf U scheme p)) =
+      { targetParts scheme p with query := U.urlencode (getQueryOf U scheme p) } :=
+  ⟨(query_view_roundtrip_target U hlaw hno scheme p _ hpath hstar).1, (query_view_roundtrip_target U hlaw hno scheme p _ hpath hstar).2.1⟩
+
+/-! #### urlencoded form -/
+
+/-- full statement: whatever style the existing body has, what `url.encode(pairs, similar_to)` writes parses back to the pairs —
+    given only urllib's law -/
+def FormStyleLossless : Prop :=
+  ∀ (U : UrlCodec), (∀ ps, U.parseQsl (U.urlencode ps) = ps) → ∀ (ps : List (Str × Str)) (similar : Str),
+    U.parseQsl (encodeForm U ps similar) = ps
+
+/-- a codec that satisfies the law and ends every non-empty encoding with `=` (as urlencode does for an empty last value) -/
+private def eqCodec : UrlCodec where
+  urlencode qs := if qs = [] then [] else ser qs ++ [61]
+  parseQsl s := if s.getLast? = some 61 then de s.dropLast.length s.dropLast else []
+  quote := id
+  unquote := id
+
+private theorem eqCodec_law (ps : List (Str × Str)) : eqCodec.parseQsl (eqCodec.urlencode ps) = ps := by
+  by_cases h : ps = []
+  · subst h; rfl
+  · simp only [eqCodec, h, if_false, List.getLast?_append, List.getLast?_singleton, Option.or_some, if_true,
+      List.dropLast_concat]
+    exact de_ser ps _ (Nat.le_refl _)
+
+/-- F-C34e: under the bare-parameter style the trailing `=` is cut off and the pairs are not read back -/
+theorem form_writeback_counterexample : ¬ FormStyleLossless := by
+  intro h
+  have := h eqCodec eqCodec_law [(S "a", [])] (S "x&y=1")
+  revert this
+  decide +kernel
+
+/-! #### response cookies -/
+
+/-- full statement: writing the response cookies view back leaves the view unchanged, for any Set-Cookie header values -/
+def SetCookieWritebackIdempotent : Prop :=
+  ∀ hdrs : List Str, getSetCookies (setSetCookies (getSetCookies hdrs)) = getSetCookies hdrs
+
+/-- F-C34f: `a=b; path="/x;y"` is written back as `path=/x;y` and then read as two attributes -/
+theorem set_cookie_writeback_counterexample : ¬ SetCookieWritebackIdempotent := by
+  intro h
+  have := h [S "a=b; path=\"/x;y\""]
+  revert this
+  decide +kernel
+
+/-- **C34 (response cookies write-back, partial).** If every pair the view holds is representable (`RepSc`: in particular no
+    `expires`/`path` value with `;`, `,` or a leading quote), writing the view back leaves it unchanged. -/
+theorem set_cookie_writeback_partial (hdrs : List Str) (h : ∀ c ∈ getSetCookies hdrs, ∀ e ∈ c, RepSc e) :
+    getSetCookies (setSetCookies (getSetCookies hdrs)) = getSetCookies hdrs := by
+  apply set_cookie_roundtrip _ _ h
+  intro c hc
+  unfold getSetCookies at hc
+  have := (List.mem_filter.mp hc).2
+  simpa using this
+
+/-! #### path components -/
+
+/-- full statement: writing the path components back leaves the path part of the target as it was -/
+def PathComponentsWritebackKeepsPath : Prop :=
+  ∀ (U : UrlCodec), QuoteLaw U → ∀ (scheme p : Str),
+    (targetParts scheme (setPathComponents U scheme p (getPathComponents U scheme p))).path = (targetParts scheme p).path
+
+/-- F-C34d: the trailing slash of `/<seg>/` is gone after `request.path_components = request.path_components`
+    (`<seg>` is a component as the codec itself quotes it, so quoting is not what changes) -/
+theorem path_components_writeback_counterexample : ¬ PathComponentsWritebackKeepsPath := by
+  intro h
+  have := h toyCodec toy_quote (S "http") (47 :: (toyCodec.quote (S "a") ++ [47]))
+  revert this
+  decide +kernel
+
+-- the partial results are not vacuous: a target with `//`, several `?` and fragments written back through the query view,
+-- and a two-cookie response written back through the cookies view
+example : getQueryOf toyCodec (S "http") (setQueryOf toyCodec (S "http") (S "//a/b?v=1?w#f#g") (getQueryOf toyCodec (S "http") (S "//a/b?v=1?w#f#g")))
+    = getQueryOf toyCodec (S "http") (S "//a/b?v=1?w#f#g") :=
+  (query_writeback_partial toyCodec toy_law (by intro ps h; have := ser_big ps 35 h; omega) (S "http") (S "//a/b?v=1?w#f#g")
+    (by decide +kernel) (by decide +kernel)).1
+
+example : getSetCookies (setSetCookies (getSetCookies [S "sid=abc; Path=/; HttpOnly", S "a=\"x y\"; Max-Age=3, c=d"]))
+    = getSetCookies [S "sid=abc; Path=/; HttpOnly", S "a=\"x y\"; Max-Age=3, c=d"] := by decide +kernel
+
+end MitmVerif.Props.C34
